@@ -2,7 +2,7 @@
 //! Compiled only with `--cfg futures_buffered_verif`; with
 //! `--cfg futures_buffered_verif_model` the `waker_list` module is the
 //! sequential reference model (/verif/hooks/waker_model.rs).
-#![allow(dead_code, static_mut_refs, clippy::all)]
+#![allow(dead_code, static_mut_refs, private_interfaces, clippy::all)]
 
 use crate::waker_list::WakerList;
 use crate::FuturesUnorderedBounded;
@@ -94,14 +94,24 @@ impl Snap {
 mod list_impl {
     use super::*;
 
-    pub(super) fn build(cap: usize, qlen: usize, q: &dyn Fn(usize) -> QEntry) -> WakerList {
-        let list = WakerList::new(cap);
+    pub(super) fn build(
+        cap: usize,
+        qlen: usize,
+        q: &dyn Fn(usize) -> QEntry,
+        stored: &Waker,
+        armed: bool,
+    ) -> WakerList {
+        let mut list = WakerList::new(cap);
+        // the task waker of "the last poll" is stored unconditionally (so its
+        // vtable stays a constant for symex); it may have been consumed by a notify
+        list.register(stored);
+        list.st().registered = armed;
         // concrete loop bound (cap); qlen <= cap is part of the invariant
         for k in 0..cap {
             if k < qlen {
                 let e = q(k);
                 if e.inflight {
-                    list.inner().wake_begin(e.slot);
+                    list.st().wake_begin(e.slot);
                 } else {
                     unsafe { list.push(e.slot) };
                 }
@@ -116,11 +126,11 @@ mod list_impl {
         probe: &Waker,
         _task_wakes: &dyn Fn() -> usize,
     ) {
-        let inner = list.inner();
+        let inner = list.st();
         let mut k = 0;
         // concrete loop bound
         while k < s.cap && k < MAXC {
-            if k < inner.qlen.get() {
+            if k < inner.qlen {
                 s.q[k] = QEntry {
                     slot: inner.q_at(k),
                     inflight: inner.inflight_at(k),
@@ -128,28 +138,28 @@ mod list_impl {
             }
             k += 1;
         }
-        s.qlen = inner.qlen.get();
-        s.registered = inner.registered.get()
-            && match unsafe { &*inner.task.get() } {
+        s.qlen = inner.qlen;
+        s.registered = inner.registered
+            && match &inner.task {
                 Some(t) => t.will_wake(probe),
                 None => false,
             };
     }
 
     pub fn list_strong(list: &WakerList) -> usize {
-        list.inner().strong.get()
+        list.st().strong
     }
     pub fn list_wake_begin(list: &WakerList, i: usize) -> bool {
-        list.inner().wake_begin(i)
+        list.st().wake_begin(i)
     }
     pub fn list_wake_finish(list: &WakerList, i: usize) {
-        list.inner().wake_finish(i)
+        list.st().wake_finish(i)
     }
     pub fn list_inflight(list: &WakerList, i: usize) -> bool {
-        list.inner().slot_inflight(i)
+        list.st().slot_inflight(i)
     }
     pub fn list_flag(list: &WakerList, i: usize) -> bool {
-        list.inner().flag(i)
+        list.st().flag(i)
     }
 }
 
@@ -158,8 +168,23 @@ mod list_impl {
     use super::*;
     use crate::waker_list::ReadySlot;
 
-    pub(super) fn build(cap: usize, qlen: usize, q: &dyn Fn(usize) -> QEntry) -> WakerList {
-        let list = WakerList::new(cap);
+    pub(super) fn build(
+        cap: usize,
+        qlen: usize,
+        q: &dyn Fn(usize) -> QEntry,
+        stored: &Waker,
+        armed: bool,
+    ) -> WakerList {
+        let mut list = WakerList::new(cap);
+        list.register(stored);
+        if !armed && cap > 0 {
+            // consume the registration by a notify (wakes `stored` once; the
+            // harness reads its counters only after the build)
+            unsafe { list.push(0) };
+            let _ = unsafe { list.pop() };
+            list.verif_get(0).wake_by_ref();
+            let _ = unsafe { list.pop() };
+        }
         for k in 0..cap {
             if k < qlen {
                 let e = q(k);
@@ -211,22 +236,21 @@ mod list_impl {
 
 /// Build a `FuturesUnorderedBounded` with arbitrary representation state.
 /// `slot(i)`: `Ok(f)` occupied / `Err(n)` NextFree(n); queue entries in FIFO
-/// order; `registered`: the task waker of "the last poll", if it is still armed.
+/// order; `stored`: the task waker of "the last poll"; `armed`: its registration
+/// has not been consumed by a notify yet.
 pub fn fub_from_parts<F>(
     cap: usize,
     slot: impl FnMut(usize) -> Result<F, usize>,
     free_head: usize,
     qlen: usize,
     q: &dyn Fn(usize) -> QEntry,
-    registered: Option<&Waker>,
+    stored: &Waker,
+    armed: bool,
 ) -> FuturesUnorderedBounded<F> {
     let tasks = crate::slot_map::PinSlotMap::verif_from_parts(cap, slot, free_head);
-    let mut shared = list_impl::build(cap, qlen, q);
-    if let Some(w) = registered {
-        let saved = unsafe { SCHED.take() };
-        shared.register(w);
-        unsafe { SCHED = saved };
-    }
+    let saved = unsafe { SCHED.take() };
+    let shared = list_impl::build(cap, qlen, q, stored, armed);
+    unsafe { SCHED = saved };
     FuturesUnorderedBounded { tasks, shared }
 }
 
@@ -287,32 +311,127 @@ pub fn fub_strong<F>(f: &FuturesUnorderedBounded<F>) -> usize {
 
 #[cfg(futures_buffered_verif_model)]
 pub mod model_waker {
-    //! direct entry points of the model's child-waker vtable, for the Kani
-    //! `Waker` stubs (explicit dispatch instead of function pointers)
+    //! direct entry points of the model's child wakers, for the Kani `Waker`
+    //! stubs (explicit dispatch instead of function pointers). The list is
+    //! identified by the waker's vtable address (concrete), the slot by the
+    //! data pointer.
     use crate::waker_list as m;
     use core::task::{RawWaker, Waker};
 
-    pub fn is_child(w: &Waker) -> bool {
-        core::ptr::eq(w.vtable(), m::child_vtable())
+    /// list id if `w` is a child waker of the model
+    pub fn list_of(w: &Waker) -> Option<usize> {
+        m::list_of(w)
     }
-    pub unsafe fn clone(data: *const ()) -> RawWaker {
-        unsafe { m::child_clone(data) }
+    pub fn clone(l: usize, data: *const ()) -> RawWaker {
+        m::child_clone(l, data)
     }
-    pub unsafe fn wake(data: *const ()) {
-        unsafe { m::child_wake(data) }
+    pub fn wake(l: usize, data: *const ()) {
+        m::child_wake(l, data)
     }
-    pub unsafe fn wake_by_ref(data: *const ()) {
-        unsafe { m::child_wake_by_ref(data) }
+    pub fn wake_by_ref(l: usize, data: *const ()) {
+        m::child_wake_by_ref(l, data)
     }
-    pub unsafe fn drop(data: *const ()) {
-        unsafe { m::child_drop(data) }
+    pub fn drop(l: usize, data: *const ()) {
+        m::child_drop(l, data)
     }
     /// first half of a wake performed by another thread (enqueue in flight)
-    pub unsafe fn wake_begin(data: *const ()) -> bool {
-        unsafe { m::child_wake_begin(data) }
+    pub fn wake_begin(w: &Waker) -> bool {
+        match m::list_of(w) {
+            Some(l) => m::child_wake_begin(l, w.data()),
+            None => false,
+        }
     }
     /// second half: link visible, task notified
-    pub unsafe fn wake_finish(data: *const ()) {
-        unsafe { m::child_wake_finish(data) }
+    pub fn wake_finish(w: &Waker) {
+        if let Some(l) = m::list_of(w) {
+            m::child_wake_finish(l, w.data())
+        }
     }
+    pub fn reset() {
+        m::model_reset()
+    }
+}
+
+// ------------------------------------------------------- ordered collections
+
+use crate::futures_ordered_bounded::OrderWrapper;
+use core::future::Future;
+
+/// Build a `FuturesOrderedBounded` with arbitrary representation state:
+/// `slot(i)`: `Ok((future, position))` / `Err(next_free)`; parked outputs are
+/// added afterwards with `verif_park`.
+pub fn fob_from_parts<F: Future>(
+    cap: usize,
+    mut slot: impl FnMut(usize) -> Result<(F, usize), usize>,
+    free_head: usize,
+    qlen: usize,
+    q: &dyn Fn(usize) -> QEntry,
+    stored: &Waker,
+    armed: bool,
+    heap_cap: usize,
+    next_in: usize,
+    next_out: usize,
+) -> crate::FuturesOrderedBounded<F> {
+    let inner = fub_from_parts(
+        cap,
+        |i| slot(i).map(|(f, index)| OrderWrapper { data: f, index }),
+        free_head,
+        qlen,
+        q,
+        stored,
+        armed,
+    );
+    crate::FuturesOrderedBounded::verif_from_parts(inner, heap_cap, next_in, next_out)
+}
+
+pub fn fob_snapshot<F: Future>(
+    f: &mut crate::FuturesOrderedBounded<F>,
+    cap: usize,
+    probe: &Waker,
+    task_wakes: &dyn Fn() -> usize,
+) -> Snap {
+    fub_snapshot(&mut f.in_progress_queue, cap, probe, task_wakes)
+}
+
+/// (future, position) held in slot i
+pub fn fob_peek<F: Future>(f: &crate::FuturesOrderedBounded<F>, i: usize) -> Option<(&F, usize)> {
+    f.in_progress_queue.tasks.verif_peek(i).map(|w| (&w.data, w.index))
+}
+
+pub fn fob_child_waker<F: Future>(f: &crate::FuturesOrderedBounded<F>, i: usize) -> Waker {
+    fub_child_waker(&f.in_progress_queue, i)
+}
+
+/// `FuturesOrdered` over explicitly built groups
+pub fn fo_from_parts<F: Future>(
+    n_groups: usize,
+    mut group: impl FnMut(usize) -> FuturesUnorderedBounded<OrderWrapperPub<F>>,
+    rem: usize,
+    poll_next: usize,
+    next_in: usize,
+    next_out: usize,
+) -> crate::FuturesOrdered<F> {
+    let mut groups = alloc::vec::Vec::with_capacity(n_groups);
+    for k in 0..n_groups {
+        groups.push(group(k));
+    }
+    let inner = crate::FuturesUnordered::verif_from_parts(groups, rem, poll_next);
+    crate::FuturesOrdered::verif_from_parts(inner, next_in, next_out)
+}
+
+/// public alias so that harnesses can name the wrapped future type
+pub type OrderWrapperPub<F> = OrderWrapper<F>;
+
+pub fn order_wrap<F>(f: F, index: usize) -> OrderWrapperPub<F> {
+    OrderWrapper { data: f, index }
+}
+
+pub fn fo_groups<F: Future>(
+    f: &mut crate::FuturesOrdered<F>,
+) -> (&mut alloc::vec::Vec<FuturesUnorderedBounded<OrderWrapperPub<F>>>, usize, usize) {
+    f.verif_inner().verif_parts()
+}
+
+pub fn order_peek<F>(w: &OrderWrapperPub<F>) -> (&F, usize) {
+    (&w.data, w.index)
 }
